@@ -23,9 +23,12 @@ THEOREMS = ["UrcuVerif.Fork.fork_point_quiescent", "UrcuVerif.Fork.child_state_w
             "UrcuVerif.Fork.after_fork_child_terminates", "UrcuVerif.Fork.before_fork_hangs_unfixed",
             "UrcuVerif.Fork.inv_reach", "UrcuVerif.Fork.inv_step",
             "UrcuVerif.ForkBp.bp_fork_point", "UrcuVerif.ForkBp.bp_child_pruned", "UrcuVerif.ForkBp.bp_child_gp_terminates",
+            "UrcuVerif.ForkBp.mask_restored",
             "UrcuVerif.ForkBp.inv_reach", "UrcuVerif.ForkWq.atfork_nesting_balanced", "UrcuVerif.ForkWq.inv_reach"]
-UNPROVED = ["UrcuVerif.Fork.C16_full (liveness half: every callback queued at the fork is eventually invoked in each "
-            "process under weak fairness – needs the futex handshake of the helpers (C02/C03) and a ranking argument)"]
+UNPROVED = ["UrcuVerif.Fork.C16_full (liveness half: every callback queued at the fork is eventually invoked in each process): as "
+            "written its FairRun has no 'read-side sections end' clause, so it does not hold (argued). Proved with explicit "
+            "hypotheses: after_fork_child_eventually_returns (weak fairness of the forking thread's handler steps) + C03's "
+            "queued_callback_eventually_invoked for the helpers of each process"]
 TRUSTED = ["Lean 4.33 kernel; axioms ⊆ {propext, Classical.choice, Quot.sound}",
            "fork() clones only the calling thread with a copy of memory (model: Fork.childOf / ForkBp fork); POSIX mutex semantics",
            "L2 granularity: pause/resume handshake flag access by flag access; code under call_rcu_mutex / rcu_registry_lock that "
@@ -163,6 +166,7 @@ def run(chk):
     chk.cov["trusted_base"] = TRUSTED
     proved = chk.proof_part(["UrcuVerif.Props.C16", "drv_fork"], "UrcuVerif.Props.C16", THEOREMS,
                             ["UrcuVerif.Fork", "UrcuVerif.Props.C16", "UrcuVerif.Machine"], unproved=UNPROVED)
+    proved = chk.live_part() and proved
     ok, log = build()
     if not ok:
         chk.fail("build", {"theorem": "harness/scen/fork.c / fork_lfht.c do not compile against /repo", "lean_error": log[-2500:]}, nofail=True)
